@@ -9,7 +9,8 @@ from vf import core
 from vf.gen import qoptions as O
 
 RULE = ("case = (class, non-default constructor options, get_config before/"
-        "after the first call, probe tensors, TF seed). Deterministic part: for "
+        "after the first call, qnoise_factor via constructor or "
+        "update_qnoise_factor, probe tensors, TF seed). Deterministic part: for "
         "each of the 14 classes every single non-default option value on top of "
         "every alpha kind, plus a greedy pairwise-covering set of admissible "
         "option combinations (thorough: plus the full admissible product of every "
@@ -45,7 +46,8 @@ ROUTES = ["from_config", "get_quantizer_dict", "get_quantizer_legacy_dict",
 # negative clip)
 UNOBSERVABLE = {"var_name", "use_variables"}
 _REQ = (["lattice", "hyp", "registry", "call_first", "config_first",
-         "orig_ok", "phase1_differs"] + O.CLASSES +
+         "orig_ok", "phase1_differs", "qnoise_zero", "qnoise_via_update",
+         "pts_keepdims"] + O.CLASSES +
         ["opt:%s.%s" % (c, p) for c in O.CLASSES for p, _ in O.SPEC[c]] +
         ["observable:%s.%s" % (c, p) for c in O.CLASSES for p, _ in O.SPEC[c]
          if p not in UNOBSERVABLE and (c, p) != ("quantized_hswish",
@@ -119,7 +121,7 @@ class Ev(object):
   constructor (after the first call of the original iff call_first);
   observations of the rebuilt quantizers are taken lazily."""
 
-  def __init__(self, cls, kw, call_first, probes, seed):
+  def __init__(self, cls, kw, call_first, probes, seed, qn_update=False):
     self.cls, self.kw, self.probes, self.seed = cls, kw, probes, seed
     self.ctor = True
     self.detail = {}
@@ -127,7 +129,7 @@ class Ev(object):
     self._robs = {}
     self._fid = {}
     try:
-      self.q = O.build(cls, kw)
+      self.q = O.build(cls, kw, qn_update)
     except Exception as e:  # pylint: disable=broad-except
       self.ctor = False
       self.detail["ctor"] = repr(e)[:200]
@@ -194,37 +196,38 @@ class Ev(object):
     return self._fid[r]
 
 
-def evaluate(cls, kw, call_first, probes, seed):
-  key = O.jkey([cls, kw, call_first, probes, seed])
+def evaluate(cls, kw, call_first, probes, seed, qn_update=False):
+  key = O.jkey([cls, kw, call_first, probes, seed, qn_update])
   if key not in _eval_memo:
     _eval_memo.bounded()
-    _eval_memo[key] = Ev(cls, kw, call_first, probes, seed)
+    _eval_memo[key] = Ev(cls, kw, call_first, probes, seed, qn_update)
   return _eval_memo[key]
 
 
 def _val_same(a, b):
   try:
-    if isinstance(a, (list, tuple)) or isinstance(b, (list, tuple)):
-      return list(a) == list(b)
-    r = (a == b)
-    if isinstance(r, bool):
-      return r and (isinstance(a, bool) == isinstance(b, bool))
-    return bool(np.all(np.asarray(r)))
+    if isinstance(a, str) or isinstance(b, str) or a is None or b is None:
+      return type(a) is type(b) and a == b
+    if isinstance(a, bool) != isinstance(b, bool):
+      return False
+    x, y = np.asarray(a), np.asarray(b)
+    return x.shape == y.shape and bool(np.array_equal(x, y))
   except Exception:  # pylint: disable=broad-except
     return False
 
 
-def _analyse(ctx, cls, kw, call_first, probes, seed, route):
+def _analyse(ctx, cls, kw, call_first, probes, seed, route, qn_update=False):
   """-> list of (sub_check, signature, detail, minimal_case)."""
   out = []
   for sig, detail, m in O.analyse(
       cls, kw, route,
-      lambda k: evaluate(cls, k, call_first, probes, seed),
+      lambda k: evaluate(cls, k, call_first, probes, seed, qn_update),
       lambda k: _observe_direct(cls, k, probes, seed),
       lambda sg: ctx.is_known(route, dict(sg, cls=cls, route=route))):
     out.append((route, dict(sg_order(cls, route, sig)), detail,
-                {"cls": cls, "kw": m, "call_first": call_first,
-                 "probes": probes, "seed": seed}))
+                dict({"cls": cls, "kw": m, "call_first": call_first,
+                      "probes": probes, "seed": seed},
+                     **({"qn_update": True} if qn_update else {}))))
   return out
 
 
@@ -237,7 +240,8 @@ def sg_order(cls, route, sig):
 def oracle(ctx, case, stats=None):
   cls, kw = case["cls"], O.nondefault(case["cls"], case["kw"])
   cf, probes, seed = case["call_first"], case["probes"], case["seed"]
-  ev = evaluate(cls, kw, cf, probes, seed)
+  qnu = bool(case.get("qn_update"))
+  ev = evaluate(cls, kw, cf, probes, seed, qnu)
   if stats is not None:
     stats["ctor"] = ev.ctor
     if ev.ctor:
@@ -257,7 +261,7 @@ def oracle(ctx, case, stats=None):
     return fails
   seen = set()
   for r in ROUTES:
-    for f in _analyse(ctx, cls, kw, cf, probes, seed, r):
+    for f in _analyse(ctx, cls, kw, cf, probes, seed, r, qnu):
       k = core.fkey(f[0], f[1])
       if k not in seen:
         seen.add(k)
@@ -294,6 +298,13 @@ def _labels(case, st):
   labs = [cls]
   labs += ["opt:%s.%s" % (cls, p) for p in sorted(case["kw"])]
   labs.append("call_first" if case["call_first"] else "config_first")
+  if case.get("qn_update") and "qnoise_factor" in case["kw"]:
+    labs.append("qnoise_via_update")
+  if case["kw"].get("qnoise_factor") == 0.0:
+    labs.append("qnoise_zero")
+  pts = case["kw"].get("post_training_scale")
+  if isinstance(pts, dict) and np.ndim(pts["__nd__"]) >= 2:
+    labs.append("pts_keepdims")
   labs.append("n_options=%d" % min(len(case["kw"]), 6))
   labs += [k for k in ("orig_ok", "orig_raises", "phase1_differs")
            if st.get(k)]
@@ -326,6 +337,11 @@ def run(ctx):
       cases.append(({"cls": c["cls"], "kw": c["kw"], "call_first": cf,
                      "probes": LATTICE_PROBES, "seed": LATTICE_SEED},
                     c.get("single")))
+    if "qnoise_factor" in c["kw"] and len(c["kw"]) <= 2:
+      # the same function reached through update_qnoise_factor()
+      cases.append(({"cls": c["cls"], "kw": c["kw"], "call_first": i % 2 == 1,
+                     "probes": LATTICE_PROBES, "seed": LATTICE_SEED,
+                     "qn_update": True}, None))
   for case, single in ctx.shard(cases):
     if ctx.time_left() <= 0:
       ctx.labels["inconclusive_time"] += 1
@@ -351,10 +367,13 @@ def run(ctx):
   @st_.composite
   def case_st(draw):
     c = draw(O.config_strategy())
-    return {"cls": c["cls"], "kw": c["kw"],
+    case = {"cls": c["cls"], "kw": c["kw"],
             "call_first": draw(st_.booleans()),
             "probes": [draw(O.probe_strategy()), "r2"],
             "seed": draw(st_.integers(0, 2 ** 16))}
+    if "qnoise_factor" in c["kw"] and draw(st_.booleans()):
+      case["qn_update"] = True
+    return case
 
   def orc(case):
     st = {}
